@@ -203,6 +203,11 @@ func outIdent(r *RegCfg, o int) (reflect.Type, any, bool) {
 		return nil
 	}
 	switch r.Shape {
+	case "ifacerr":
+		if r.Group != "-" && r.Group != "" {
+			return nil, nil, false
+		}
+		return typI0, name(), o == 1
 	case "ctor", "ctorerr", "inst":
 		if r.Group != "-" && r.Group != "" {
 			return nil, nil, false
@@ -379,6 +384,12 @@ func fnName(r *RegCfg) (string, error) {
 			return base + "_pn_" + sig, nil
 		}
 		return base + "_pe_" + sig, nil
+	case "ifacerr":
+		sig, err := posSig(1)
+		if err != nil {
+			return "", err
+		}
+		return fmt.Sprintf("F%d%s_ie_%s", r.Slot, r.Var, sig), nil
 	case "multi", "multierr", "outkn", "outkg":
 		sig, err := posSig(1)
 		if err != nil {
@@ -642,6 +653,9 @@ func recCtor(fn string, ign bool, n int, args []argRec) (ids []int, reg string, 
 		outcome = "panic"
 	case "nil":
 		outcome = "nil"
+		if r := R.regByID[reg]; r != nil && r.Shape == "ifacerr" {
+			outcome = "unil" // the constructor's result type is an interface: this nil is untyped
+		}
 	}
 	if outcome == "ok" {
 		for i := 0; i < n; i++ {
@@ -682,7 +696,7 @@ func recCtor(fn string, ign bool, n int, args []argRec) (ids []int, reg string, 
 		return nil, reg, errFault
 	case "panic":
 		panic(faultPanic)
-	case "nil":
+	case "nil", "unil":
 		return nil, reg, nil
 	}
 	if how == "cancel" {
